@@ -300,6 +300,10 @@ def C03(tier):
              gen=dict(count=(1500, 10000), params={"kinds": "poison", "oor_den": "0"})),
         dict(name="sort_frame_long_lanes", family="sort", trace="Trace_Sort", trace_constants=FIX, profile="dev", chunk=40,
              gen=dict(count=(240, 2400), params={"oor_den": "0", "long": "1", "bigstride": "0"}), params={"frame": "1"}),
+        # a run of 70..260 equal values among a few others: the recursion goes as deep as the run whatever the pivots are, on a window
+        # that still holds different values (a depth-limited fallback has to put back exactly what it took)
+        dict(name="sort_frame_deep_ties", family="sort", trace="Trace_Sort", trace_constants=FIX, profile="dev", chunk=40,
+             gen=dict(count=(150, 1500), params={"kinds": "select/bulk", "oor_den": "0", "deep": "1", "bigstride": "0"}), params={"frame": "1"}),
     ]
     models = [
         dict(module="Partition", name="MC_Partition",
